@@ -9,7 +9,8 @@ import os
 import vlib
 import compiles
 
-FAMS = ["conv_chain", "single", "unsupported", "mixed_cpu", "diamond", "lut_heavy", "conv_chain_big", "single", "unsupported"]
+FAMS = ["conv_chain", "single", "unsupported", "mixed_cpu", "diamond", "lut_heavy", "conv_chain_big", "single", "unsupported",
+        "ew_dag", "multi_custom", "weights_heavy"]
 
 
 def classify(r):
